@@ -65,6 +65,8 @@ pub enum VT {
     Tr,
     Big,
     Zt,
+    /// 64 bytes, aligned to 64
+    Wide,
 }
 
 /// pure predicates / keys over an element's tag
